@@ -196,16 +196,16 @@ def run_case(i, choices):
     return base, got
 
 
-def check(case: int, o0: int, o1: int, o2: int) -> bool:
+def check(case: int, o0: int, o1: int, o2: int, o3: int = 0) -> bool:
     """
     pre: 0 <= case < 13
-    pre: 0 <= o0 < 6 and 0 <= o1 < 6 and 0 <= o2 < 6
+    pre: 0 <= o0 < 6 and 0 <= o1 < 6 and 0 <= o2 < 6 and 0 <= o3 < 6
     post: _
     """
     PATHS[0] += 1
     from crosshair.tracers import NoTracing
     i = _concrete(case, len(CASES) + len(ASSIST_CASES))
-    ch = [_concrete(o0, 6), _concrete(o1, 6), _concrete(o2, 6)]
+    ch = [_concrete(o0, 6), _concrete(o1, 6), _concrete(o2, 6), _concrete(o3, 6)]
     with NoTracing():
         base, got = run_case(i, ch)
         if TWIN[0]:
